@@ -84,8 +84,12 @@ def gen_knobs(rng, cfg, body_tricks=False, short_reads=False):
 
 
 def gen_strategy(rng, est_steps=600):
-    kind = wchoice(rng, [('uniform', 30), ('sticky', 30), ('pct', 20),
-                         ('starve', 15), ('rr', 5)])
+    kind = wchoice(rng, [('uniform', 27), ('sticky', 27), ('pct', 18),
+                         ('starve', 13), ('rr', 5), ('hold', 10)])
+    if kind == 'hold':
+        return ['hold', rng.choice(['driver', 'driver', 'submission', 'request', 'io']),
+                rng.randint(0, max(1, est_steps)), rng.choice([5, 20, 80, 300]),
+                rng.choice([0.3, 0.7])]
     if kind == 'uniform':
         return ['uniform']
     if kind == 'sticky':
@@ -504,7 +508,12 @@ def add_cancel_script(rng, sc, how=None, allow_ctrlc=True):
     msg = rng.choice(['', 'stop now', 'x'])
     if how == 'future':
         victim = rng.randrange(k)
-        sc['driver'] = pre + [['wait_step', step], ['cancel', victim, atomic]] + \
+        act = ['cancel', victim, atomic]
+        if not atomic and rng.random() < 0.6:
+            act.append(rng.choice(['inflight', 'inflight', 'running', 'done']))
+            if rng.random() < 0.5:
+                step = rng.randint(0, 12)      # cancel early: often still not started
+        sc['driver'] = pre + [['wait_step', step], act] + \
             post_submit + results + [['shutdown']]
     elif how == 'shutdown':
         kw = {'cancel': True}
